@@ -216,4 +216,46 @@ def codecLossy (cs : List EnumCodec) : EnumCanon := (codecRoundtrips cs).filter 
 def codecReadOnly (cs : List EnumCodec) : List (String × Nat × String) :=
   cs.flatMap fun c => (c.reads.filter fun r => !(c.writes.any fun w => w.2 == r.1)).map fun r => (c.name, r.1, r.2)
 
+/-! ## positional (non-TLV) prefixes of the three big hand-written serializers
+
+  A step of `Generated/Positional.lean` (tools/gen_positional.py): one TOP-LEVEL statement of `write` / `read` that touches the
+  stream, in source order: (kind `ver` | `val` | `blk` | `tlv`, canonical name, type as far as the statement states it, number of
+  syntactic stream accesses inside). -/
+abbrev PosStep := String × String × String × Nat
+
+def PosStep.kind (s : PosStep) : String := s.1
+def PosStep.name (s : PosStep) : String := s.2.1
+def PosStep.ty (s : PosStep) : String := s.2.2.1
+def PosStep.accesses (s : PosStep) : Nat := s.2.2.2
+
+/-- `(start, count)`: the `count` consecutive steps from `start` on are ONE step on the other side (e.g. `txid` + `index` written
+    separately, read as one `OutPoint` block): merged into a `blk` named after the first, accesses summed.  Directives are applied
+    in the order given and must be listed from the highest `start` down (indices refer to the original list). -/
+def mergeSteps (steps : List PosStep) (merges : List (Nat × Nat)) : List PosStep :=
+  merges.foldl (fun st m =>
+    match st.drop m.1 with
+    | [] => st
+    | f :: _ => st.take m.1 ++ [("blk", f.name, "", ((st.drop m.1).take m.2).foldl (fun a x => a + x.accesses) 0)] ++ st.drop (m.1 + m.2)) steps
+
+/-- position-by-position comparison of the write steps and the read steps: the positions whose canonical names differ
+    (position, written name, read name) -/
+def posNameMismatches (ws rs : List PosStep) : List (Nat × String × String) :=
+  ((List.zip ws rs).zipIdx.filterMap fun p => if p.1.1.name == p.1.2.name then none else some (p.2, p.1.1.name, p.1.2.name))
+
+/-- … and the positions on which BOTH sides state a type and the types differ -/
+def posTypeMismatches (ws rs : List PosStep) : List (Nat × String × String) :=
+  ((List.zip ws rs).zipIdx.filterMap fun p =>
+    if p.1.1.ty == "" || p.1.2.ty == "" || p.1.1.ty == p.1.2.ty then none else some (p.2, p.1.1.ty, p.1.2.ty))
+
+/-- the compound steps: (position, written name, accesses inside on the write side, on the read side) -/
+def posBlocks (ws rs : List PosStep) : List (Nat × String × Nat × Nat) :=
+  ((List.zip ws rs).zipIdx.filterMap fun p =>
+    if p.1.1.kind == "blk" || p.1.2.kind == "blk" then some (p.2, p.1.1.name, p.1.1.accesses, p.1.2.accesses) else none)
+
+/-- both sequences start with the version prefix, end with the TLV block, and have the same number of steps -/
+def posFramed (ws rs : List PosStep) : Bool :=
+  ws.length == rs.length && (ws.head?.map PosStep.kind) == some "ver" && (rs.head?.map PosStep.kind) == some "ver" &&
+  (ws.getLast?.map PosStep.kind) == some "tlv" && (rs.getLast?.map PosStep.kind) == some "tlv" &&
+  ((ws.zip rs).all fun p => (p.1.kind == "ver") == (p.2.kind == "ver") && (p.1.kind == "tlv") == (p.2.kind == "tlv"))
+
 end Ldk.TlvFrame
